@@ -250,6 +250,31 @@ def generation (step : List Row → List Row) (anchor : List Row) : Nat → List
 def generationsUpTo (step : List Row → List Row) (anchor : List Row) (k : Nat) : List Row :=
   ((List.range (k + 1)).map (generation step anchor)).flatten
 
+/-! ## recursive CTE with UNION (distinct): `selectSetForRecursion` + `View.Union(all = false)`
+
+  As above, but after every non-empty step the accumulated view is merged with the step's records and
+  de-duplicated by comparison key (first occurrence kept).  The working table of the next step is the raw
+  step result (NOT reduced by what is already known): on a cyclic graph the steps never become empty and
+  the recursion ends in the limit error.  The anchor is de-duplicated only if a step produced records. -/
+
+/-- keep the first record of every key; `seen` = keys already emitted -/
+def dedupAux {κ : Type} [DecidableEq κ] (key : Row → κ) : List κ → List Row → List Row
+  | _, [] => []
+  | seen, x :: xs => if key x ∈ seen then dedupAux key seen xs else x :: dedupAux key (key x :: seen) xs
+
+def dedupBy {κ : Type} [DecidableEq κ] (key : Row → κ) (rows : List Row) : List Row := dedupAux key [] rows
+
+def recLoopU {κ : Type} [DecidableEq κ] (key : Row → κ) (step : List Row → List Row) :
+    Nat → List Row → List Row → Option (List Row)
+  | 0, _, _ => none
+  | fuel + 1, acc, g =>
+    let r := step g
+    if r.isEmpty then some acc else recLoopU key step fuel (dedupBy key (acc ++ r)) r
+
+def recursiveUnionImpl {κ : Type} [DecidableEq κ] (key : Row → κ) (step : List Row → List Row) (fuel : Nat)
+    (anchor : List Row) : Option (List Row) :=
+  recLoopU key step fuel anchor anchor
+
 /-! ## LATERAL (`loadView`, parser.Join with a LATERAL right side)
 
   For every left record the sub-select is evaluated with that record in scope and joined to the one-row
